@@ -17,9 +17,9 @@ exp_extra=[l.strip() for l in open(sys.argv[2]) if l.strip() and not l.startswit
 def expected_bad(name):
     lab=name.split("#",1)[1]
     if re.search(r"(^|[.@])bad-", lab) or ".bad-" in lab: return True
-    return any(name==e for e in exp_extra)
+    return any(name==e for e in exp_extra if not e.startswith("ENGINE:"))
 unexpected=[u for u in sorted(und) if not expected_bad(u)]
-missing=[e for e in exp_extra if e not in und]
+missing=[e for e in exp_extra if e not in und and not e.startswith("ENGINE:")]
 # every bad-* label that exists in the corpus must be undischarged: count them from the contract file
 labels=set()
 cur=None
@@ -35,6 +35,10 @@ ok=True
 for u in unexpected: print("UNEXPECTED-FAIL (must pass):",u); ok=False
 for m_ in missing: print("UNEXPECTED-PASS (must fail):",m_); ok=False
 for f,l in notfailed: print("UNEXPECTED-PASS (must fail):",f,l); ok=False
-if cov.get("engine_errors"): print("ENGINE-ERRORS:",cov["engine_errors"]); ok=False
+exp_eng=[e[len("ENGINE:"):].strip() for e in exp_extra if e.startswith("ENGINE:")]
+for ee in (cov.get("engine_errors") or []):
+    if not any(x in ee for x in exp_eng): print("UNEXPECTED ENGINE-ERROR:",ee); ok=False
+for x in exp_eng:
+    if not any(x in ee for ee in (cov.get("engine_errors") or [])): print("MISSING ENGINE-ERROR (must be reported):",x); ok=False
 sys.exit(0 if ok else 1)
 PY
